@@ -176,3 +176,49 @@ def h_eig_skip(ctx, it):
         want = 0 if tag == 'zero_column' else 1
         ctx.prove(f'{tag}.adjoint_solves', len(solves) - n0 == want)
         it.call(it.getattr(mod, '_reset'), [])
+
+
+@harness(P, 'ComplexNorm.zero_entry.states_untouched', targets=['pymoto.modules.complex:ComplexNorm._sensitivity', 'pymoto.modules.complex:ComplexNorm._response'])
+def h_cnorm_zero(ctx, it):
+    """an input with an entry that is exactly zero (where the derivative of |z| does not exist): whatever sensitivity value is returned there,
+    _sensitivity must not write to the input or output STATES (a guard against 0/0 must work on a copy)"""
+    ctx.safety_on = False
+    z = [Cx(ctx.sym(f'z{k}r', 'real'), ctx.sym(f'z{k}i', 'real')) for k in range(2)]
+    ctx.assume(z3.And(z[0].re == 0, z[0].im == 0, z[1].re != 0))
+    zin = CArr(np.array(z, dtype=object), 'complex')
+    mod = mk_module(it, 'pymoto.modules.complex:ComplexNorm', 1, 1)
+    it.setattr(it.getattr(mod, 'sig_in')[0], 'state', zin)
+    y = it.call(it.getattr(mod, '_response'), [zin])
+    it.setattr(it.getattr(mod, 'sig_out')[0], 'state', y)
+    y0 = list(y.data)
+    w = CArr(np.array([ctx.sym(f'w{k}', 'real') for k in range(2)], dtype=object), 'real')
+    it.call(it.getattr(mod, '_sensitivity'), [w])
+    out_now = it.getattr(it.getattr(mod, 'sig_out')[0], 'state')
+    ctx.prove('output_state_object_kept', out_now is y)
+    ctx.prove('output_state_values_untouched', z3.And(*[V.z(V.cmp('==', a_, b_)) for a_, b_ in zip(out_now.data, y0)]))
+    ctx.prove('input_state_values_untouched', z3.And(*[z3.And(V.zreal(a_.re) == V.zreal(b_.re), V.zreal(a_.im) == V.zreal(b_.im)) for a_, b_ in zip(zin.data, z)]))
+
+
+for _part in (([0], [1, 2]), ([1, 2], [0])):
+    @harness(P, f'SystemOfEquations.seed_history[f={_part[0]},p={_part[1]}]', targets=['pymoto.modules.linalg:SystemOfEquations._sensitivity',
+                                                                                      'pymoto.modules.linalg:SystemOfEquations._response'], timeout=30000)
+    def h_soe_seeds(ctx, it, part=_part):
+        """accumulation / linearity presuppose that a sensitivity call does not depend on EARLIER seeds: after response, sensitivity(seed on b only),
+        reset, the call sensitivity(seed on x only) returns exactly what a twin object returns for that seed directly after its response (solver
+        objects through the functional contract of C05/C06) - no adjoint buffer may survive between calls"""
+        from . import C03 as H
+        mods, ins = [], None
+        for k in range(2):
+            m_, ins, _ = H.b_soe(ctx, it, part)
+            mods.append(m_)
+        vals = [x.value for x in ins]
+        ys = [H.do_response(it, m_, vals) for m_ in mods]
+        nx = len(flat(ys[0][0]))
+        wb = CArr(np.array([ctx.sym(f'wb{k}', 'real') for k in range(nx)], dtype=object), 'real')
+        wx = CArr(np.array([ctx.sym(f'wx{k}', 'real') for k in range(nx)], dtype=object), 'real')
+        H.do_sensitivity(it, mods[0], [None, wb], 3)
+        it.call(it.getattr(mods[0], '_reset'), [])
+        gH = H.do_sensitivity(it, mods[0], [wx, None], 3)
+        gF = H.do_sensitivity(it, mods[1], [wx, None], 3)
+        for k, (a_, b_) in enumerate(zip(gH, gF)):
+            ctx.prove(f'input{k}.independent_of_earlier_seed', H.same_values(ctx, it, H.dense_entries(a_), H.dense_entries(b_)))
